@@ -146,6 +146,29 @@ func c02Shape(g *gen.PG, k int) *ref.Node {
 		}
 	}
 	op := ops[g.R.IntN(len(ops))]
+	if k%13 == 11 {
+		// a lazy list made from a constant list by a stage whose closure takes several arguments is bound, then
+		// other (non-constant) locals are declared, then the list is consumed and the locals are read
+		id := ref.Id
+		src := ref.ListN(ref.Int(1), ref.Int(2), ref.Int(3), ref.Int(4))
+		pq := []string{"p", "q"}
+		stages := []*ref.Node{
+			ref.Method(src, "combine", ref.Clo(pq, ref.Bin("+", id("p"), id("q")))),
+			ref.Method(src, "combine3", ref.Clo([]string{"p", "q", "r"}, ref.Bin("+", ref.Bin("+", id("p"), id("q")), id("r")))),
+			ref.Method(src, "number", ref.Clo(pq, ref.Bin("+", ref.Bin("*", id("p"), ref.Int(10)), id("q")))),
+			ref.Method(src, "iir", ref.Clo([]string{"p"}, id("p")), ref.Clo(pq, ref.Bin("+", id("p"), id("q")))),
+			ref.Method(src, "iirCombine", ref.Clo([]string{"p"}, id("p")), ref.Clo([]string{"p", "q", "r"}, ref.Bin("+", ref.Bin("+", id("p"), id("q")), id("r")))),
+			ref.Method(src, "cross", ref.ListN(ref.Int(1), ref.Int(2)), ref.Clo(pq, ref.Bin("*", id("p"), id("q")))),
+			ref.Method(src, "merge", ref.ListN(ref.Int(2), ref.Int(5)), ref.Clo(pq, ref.Bin("<", id("p"), id("q")))),
+			ref.Method(src, "compact", ref.Clo(pq, ref.Bin("=", ref.Bin("/", id("p"), ref.Int(2)), ref.Bin("/", id("q"), ref.Int(2))))),
+			ref.Method(src, "combineN", ref.Int(2), ref.Clo([]string{"w"}, ref.Method(id("w"), "sum"))),
+			ref.Method(src, "map", ref.Clo([]string{"p"}, ref.Bin("*", id("p"), ref.Int(2)))),
+			ref.Method(src, "accept", ref.Clo([]string{"p"}, ref.Bin(">", id("p"), ref.Int(1)))),
+		}
+		use := []*ref.Node{ref.Method(id("l"), "size"), ref.Method(id("l"), "sum"), ref.Method(id("l"), "string")}[g.R.IntN(3)]
+		return ref.Let("l", stages[g.R.IntN(len(stages))], ref.Let("u", ref.Bin("+", a, ref.Int(1)), ref.Let("v", ref.Bin("+", a, ref.Int(2)), ref.Let("w", ref.Bin("*", a, ref.Int(3)),
+			ref.ListN(use, id("u"), id("v"), id("w"), ref.Method(id("l"), "size"))))))
+	}
 	switch k % 10 {
 	case 0: // (c1 op x) op c2
 		return ref.Bin(op, ref.Bin(op, c(), a), c())
